@@ -847,7 +847,7 @@ package openflow13
 //@   ensures err == nil ==> typeis(d.Actions[0], *ActionOutput) && d.Actions[0].(*ActionOutput).Port == a1.Port && d.Actions[0].(*ActionOutput).MaxLen == a1.MaxLen
 //@   ensures err == nil ==> typeis(d.Actions[1], *ActionGroup) && d.Actions[1].(*ActionGroup).GroupId == a2.GroupId
 //@   ensures err == nil ==> len(b1) == 40 && len(b2) == len(b1) && bytes_eq(b2, 0, b1, 0, len(b1))
-//@   ensures[C03] err == nil ==> be16(b1, 0) == 40 && be16(b1, 2) == b.Weight && be32(b1, 4) == b.WatchPort && be32(b1, 8) == b.WatchGroup && be16(b1, 16) == 0 && be16(b1, 18) == 16 && be32(b1, 20) == a1.Port && be16(b1, 24) == a1.MaxLen && be16(b1, 26) == 0 && be32(b1, 28) == 0 && be16(b1, 32) == 22 && be16(b1, 34) == 8 && be32(b1, 36) == a2.GroupId
+//@   ensures[C03 C06] err == nil ==> be16(b1, 0) == 40 && be16(b1, 2) == b.Weight && be32(b1, 4) == b.WatchPort && be32(b1, 8) == b.WatchGroup && be16(b1, 16) == 0 && be16(b1, 18) == 16 && be32(b1, 20) == a1.Port && be16(b1, 24) == a1.MaxLen && be16(b1, 26) == 0 && be32(b1, 28) == 0 && be16(b1, 32) == 22 && be16(b1, 34) == 8 && be32(b1, 36) == a2.GroupId
 
 //@ func lemmaContInstrActions(a1, a2, a0, write) (i, d, err, b1, b2) [C05]
 //@   inlinecalls
@@ -861,8 +861,8 @@ package openflow13
 //@   ensures err == nil ==> typeis(d.(*InstrActions).Actions[1], *ActionSetqueue) && d.(*InstrActions).Actions[1].(*ActionSetqueue).QueueId == a1.QueueId
 //@   ensures err == nil ==> typeis(d.(*InstrActions).Actions[2], *ActionOutput) && d.(*InstrActions).Actions[2].(*ActionOutput).Port == a2.Port && d.(*InstrActions).Actions[2].(*ActionOutput).MaxLen == a2.MaxLen
 //@   ensures err == nil ==> len(b1) == 40 && len(b2) == len(b1) && bytes_eq(b2, 0, b1, 0, len(b1))
-//@   ensures[C03] err == nil ==> be16(b1, 0) == ite(write, 3, 4) && be16(b1, 2) == 40 && be32(b1, 4) == 0
-//@   ensures[C03] err == nil ==> be16(b1, 8) == 22 && be16(b1, 10) == 8 && be32(b1, 12) == a0.GroupId && be16(b1, 16) == 21 && be16(b1, 18) == 8 && be32(b1, 20) == a1.QueueId && be16(b1, 24) == 0 && be16(b1, 26) == 16 && be32(b1, 28) == a2.Port && be16(b1, 32) == a2.MaxLen && be16(b1, 34) == 0 && be32(b1, 36) == 0
+//@   ensures[C03 C06] err == nil ==> be16(b1, 0) == ite(write, 3, 4) && be16(b1, 2) == 40 && be32(b1, 4) == 0
+//@   ensures[C03 C06] err == nil ==> be16(b1, 8) == 22 && be16(b1, 10) == 8 && be32(b1, 12) == a0.GroupId && be16(b1, 16) == 21 && be16(b1, 18) == 8 && be32(b1, 20) == a1.QueueId && be16(b1, 24) == 0 && be16(b1, 26) == 16 && be32(b1, 28) == a2.Port && be16(b1, 32) == a2.MaxLen && be16(b1, 34) == 0 && be32(b1, 36) == 0
 //@   ensures[C02] i.Length == 40 && len(b1) == 40 && be16(b1, 2) == 40 && be16(b1, 0) == ite(write, 3, 4)
 
 //@ func lemmaContMatch(port, mac, mask) (d, err, b1, b2) [C05]
@@ -876,7 +876,7 @@ package openflow13
 //@   ensures err == nil ==> d.Fields[0].Class == 32768 && d.Fields[0].Field == 0 && !d.Fields[0].HasMask && d.Fields[0].Length == 4 && typeis(d.Fields[0].Value, *InPortField) && d.Fields[0].Value.(*InPortField).InPort == port
 //@   ensures err == nil ==> d.Fields[1].Class == 32768 && d.Fields[1].Field == 3 && d.Fields[1].HasMask && d.Fields[1].Length == 12 && typeis(d.Fields[1].Value, *EthDstField) && bytes_eq(d.Fields[1].Value.(*EthDstField).EthDst, 0, mac, 0, 6) && typeis(d.Fields[1].Mask, *EthDstField) && bytes_eq(d.Fields[1].Mask.(*EthDstField).EthDst, 0, mask, 0, 6)
 //@   ensures err == nil ==> len(b1) == 32 && len(b2) == len(b1) && bytes_eq(b2, 0, b1, 0, len(b1))
-//@   ensures[C03] err == nil ==> be16(b1, 0) == 1 && be16(b1, 2) == 28 && be32(b1, 4) == 2147483652 && be32(b1, 8) == port && be32(b1, 12) == 2147485452 && bytes_eq(b1, 16, mac, 0, 6) && bytes_eq(b1, 22, mask, 0, 6) && be32(b1, 28) == 0
+//@   ensures[C03 C06] err == nil ==> be16(b1, 0) == 1 && be16(b1, 2) == 28 && be32(b1, 4) == 2147483652 && be32(b1, 8) == port && be32(b1, 12) == 2147485452 && bytes_eq(b1, 16, mac, 0, 6) && bytes_eq(b1, 22, mask, 0, 6) && be32(b1, 28) == 0
 
 //@ func lemmaContGroupMod(g, b, a) (d, err, b1, b2) [C05]
 //@   inlinecalls
@@ -889,8 +889,8 @@ package openflow13
 //@   ensures err == nil ==> d.(*GroupMod).Header.Xid == g.Header.Xid && d.(*GroupMod).Header.Length == 48 && d.(*GroupMod).Command == g.Command && d.(*GroupMod).Type == g.Type && d.(*GroupMod).GroupId == g.GroupId && len(d.(*GroupMod).Buckets) == 1
 //@   ensures err == nil ==> d.(*GroupMod).Buckets[0].Weight == b.Weight && d.(*GroupMod).Buckets[0].WatchPort == b.WatchPort && d.(*GroupMod).Buckets[0].WatchGroup == b.WatchGroup && len(d.(*GroupMod).Buckets[0].Actions) == 1 && typeis(d.(*GroupMod).Buckets[0].Actions[0], *ActionOutput) && d.(*GroupMod).Buckets[0].Actions[0].(*ActionOutput).Port == a.Port
 //@   ensures err == nil ==> len(b1) == 48 && len(b2) == len(b1) && bytes_eq(b2, 0, b1, 0, len(b1))
-//@   ensures[C03] err == nil ==> u8(b1, 0) == 4 && u8(b1, 1) == 15 && be16(b1, 2) == 48 && be32(b1, 4) == g.Header.Xid && be16(b1, 8) == g.Command && u8(b1, 10) == g.Type && be32(b1, 12) == g.GroupId
-//@   ensures[C03] err == nil ==> be16(b1, 16) == 32 && be16(b1, 18) == b.Weight && be32(b1, 20) == b.WatchPort && be32(b1, 24) == b.WatchGroup && be16(b1, 32) == 0 && be16(b1, 34) == 16 && be32(b1, 36) == a.Port && be16(b1, 40) == a.MaxLen && be16(b1, 42) == 0 && be32(b1, 44) == 0
+//@   ensures[C03 C06] err == nil ==> u8(b1, 0) == 4 && u8(b1, 1) == 15 && be16(b1, 2) == 48 && be32(b1, 4) == g.Header.Xid && be16(b1, 8) == g.Command && u8(b1, 10) == g.Type && be32(b1, 12) == g.GroupId
+//@   ensures[C03 C06] err == nil ==> be16(b1, 16) == 32 && be16(b1, 18) == b.Weight && be32(b1, 20) == b.WatchPort && be32(b1, 24) == b.WatchGroup && be16(b1, 32) == 0 && be16(b1, 34) == 16 && be32(b1, 36) == a.Port && be16(b1, 40) == a.MaxLen && be16(b1, 42) == 0 && be32(b1, 44) == 0
 
 //@ func lemmaContPacketOut(p, a, raw) (d, err, b1, b2) [C05]
 //@   inlinecalls
@@ -902,8 +902,8 @@ package openflow13
 //@   ensures err == nil && d != nil && typeis(d, *PacketOut)
 //@   ensures err == nil ==> d.(*PacketOut).Header.Xid == p.Header.Xid && d.(*PacketOut).BufferId == p.BufferId && d.(*PacketOut).InPort == p.InPort && d.(*PacketOut).ActionsLen == 16 && len(d.(*PacketOut).Actions) == 1 && typeis(d.(*PacketOut).Actions[0], *ActionOutput) && d.(*PacketOut).Actions[0].(*ActionOutput).Port == a.Port
 //@   ensures err == nil ==> len(b1) == 40 + blen(raw) && len(b2) == len(b1) && bytes_eq(b2, 0, b1, 0, len(b1))
-//@   ensures[C03] err == nil ==> u8(b1, 0) == 4 && u8(b1, 1) == 13 && be16(b1, 2) == uint16(40 + blen(raw)) && be32(b1, 4) == p.Header.Xid && be32(b1, 8) == p.BufferId && be32(b1, 12) == p.InPort && be16(b1, 16) == 16 && be16(b1, 18) == 0 && be32(b1, 20) == 0
-//@   ensures[C03] err == nil ==> be16(b1, 24) == 0 && be16(b1, 26) == 16 && be32(b1, 28) == a.Port && be16(b1, 32) == a.MaxLen && be16(b1, 34) == 0 && be32(b1, 36) == 0
+//@   ensures[C03 C06] err == nil ==> u8(b1, 0) == 4 && u8(b1, 1) == 13 && be16(b1, 2) == uint16(40 + blen(raw)) && be32(b1, 4) == p.Header.Xid && be32(b1, 8) == p.BufferId && be32(b1, 12) == p.InPort && be16(b1, 16) == 16 && be16(b1, 18) == 0 && be32(b1, 20) == 0
+//@   ensures[C03 C06] err == nil ==> be16(b1, 24) == 0 && be16(b1, 26) == 16 && be32(b1, 28) == a.Port && be16(b1, 32) == a.MaxLen && be16(b1, 34) == 0 && be32(b1, 36) == 0
 
 //@ func lemmaContFlowMod(f, port, table, a) (d, err, b1, b2) [C05]
 //@   inlinecalls
@@ -917,10 +917,10 @@ package openflow13
 //@   ensures err == nil ==> d.(*FlowMod).Match.Type == 1 && d.(*FlowMod).Match.Length == 12 && len(d.(*FlowMod).Match.Fields) == 1 && typeis(d.(*FlowMod).Match.Fields[0].Value, *InPortField) && d.(*FlowMod).Match.Fields[0].Value.(*InPortField).InPort == port
 //@   ensures err == nil ==> len(d.(*FlowMod).Instructions) == 2 && typeis(d.(*FlowMod).Instructions[0], *InstrGotoTable) && d.(*FlowMod).Instructions[0].(*InstrGotoTable).TableId == table && typeis(d.(*FlowMod).Instructions[1], *InstrActions) && len(d.(*FlowMod).Instructions[1].(*InstrActions).Actions) == 1 && typeis(d.(*FlowMod).Instructions[1].(*InstrActions).Actions[0], *ActionOutput) && d.(*FlowMod).Instructions[1].(*InstrActions).Actions[0].(*ActionOutput).Port == a.Port
 //@   ensures err == nil ==> len(b1) == 96 && len(b2) == len(b1) && bytes_eq(b2, 0, b1, 0, len(b1))
-//@   ensures[C03] err == nil ==> u8(b1, 0) == 4 && u8(b1, 1) == 14 && be16(b1, 2) == 96 && be32(b1, 4) == f.Header.Xid && be64(b1, 8) == f.Cookie && be64(b1, 16) == f.CookieMask && u8(b1, 24) == f.TableId && u8(b1, 25) == f.Command && be16(b1, 26) == f.IdleTimeout && be16(b1, 28) == f.HardTimeout && be16(b1, 30) == f.Priority && be32(b1, 32) == f.BufferId && be32(b1, 36) == f.OutPort && be32(b1, 40) == f.OutGroup && be16(b1, 44) == f.Flags && be16(b1, 46) == 0
-//@   ensures[C03] err == nil ==> be16(b1, 48) == 1 && be16(b1, 50) == 12 && be32(b1, 52) == 2147483652 && be32(b1, 56) == port && be32(b1, 60) == 0
-//@   ensures[C03] err == nil ==> be16(b1, 64) == 1 && be16(b1, 66) == 8 && u8(b1, 68) == table && u8(b1, 69) == 0 && be16(b1, 70) == 0
-//@   ensures[C03] err == nil ==> be16(b1, 72) == 4 && be16(b1, 74) == 24 && be32(b1, 76) == 0 && be16(b1, 80) == 0 && be16(b1, 82) == 16 && be32(b1, 84) == a.Port && be16(b1, 88) == a.MaxLen && be16(b1, 90) == 0 && be32(b1, 92) == 0
+//@   ensures[C03 C06] err == nil ==> u8(b1, 0) == 4 && u8(b1, 1) == 14 && be16(b1, 2) == 96 && be32(b1, 4) == f.Header.Xid && be64(b1, 8) == f.Cookie && be64(b1, 16) == f.CookieMask && u8(b1, 24) == f.TableId && u8(b1, 25) == f.Command && be16(b1, 26) == f.IdleTimeout && be16(b1, 28) == f.HardTimeout && be16(b1, 30) == f.Priority && be32(b1, 32) == f.BufferId && be32(b1, 36) == f.OutPort && be32(b1, 40) == f.OutGroup && be16(b1, 44) == f.Flags && be16(b1, 46) == 0
+//@   ensures[C03 C06] err == nil ==> be16(b1, 48) == 1 && be16(b1, 50) == 12 && be32(b1, 52) == 2147483652 && be32(b1, 56) == port && be32(b1, 60) == 0
+//@   ensures[C03 C06] err == nil ==> be16(b1, 64) == 1 && be16(b1, 66) == 8 && u8(b1, 68) == table && u8(b1, 69) == 0 && be16(b1, 70) == 0
+//@   ensures[C03 C06] err == nil ==> be16(b1, 72) == 4 && be16(b1, 74) == 24 && be32(b1, 76) == 0 && be16(b1, 80) == 0 && be16(b1, 82) == 16 && be32(b1, 84) == a.Port && be16(b1, 88) == a.MaxLen && be16(b1, 90) == 0 && be32(b1, 92) == 0
 
 //@ func lemmaContBundleAddGroupMod(id, flags, g, b, a) (v, d, err, b1, b2) [C05]
 //@   inlinecalls
@@ -958,7 +958,7 @@ package openflow13
 //@   ensures err == nil && d != nil && typeis(d, *GroupMod) && len(d.(*GroupMod).Buckets) == 2
 //@   ensures err == nil ==> len(d.(*GroupMod).Buckets[0].Actions) == 2 && typeis(d.(*GroupMod).Buckets[0].Actions[0], *ActionOutput) && d.(*GroupMod).Buckets[0].Actions[0].(*ActionOutput).Port == a1.Port && typeis(d.(*GroupMod).Buckets[0].Actions[1], *ActionGroup) && d.(*GroupMod).Buckets[0].Actions[1].(*ActionGroup).GroupId == a2.GroupId
 //@   ensures err == nil ==> len(d.(*GroupMod).Buckets[1].Actions) == 2 && typeis(d.(*GroupMod).Buckets[1].Actions[0], *ActionSetqueue) && d.(*GroupMod).Buckets[1].Actions[0].(*ActionSetqueue).QueueId == a3.QueueId && typeis(d.(*GroupMod).Buckets[1].Actions[1], *ActionPopVlan) && d.(*GroupMod).Buckets[1].Weight == bb.Weight && d.(*GroupMod).Buckets[1].WatchPort == bb.WatchPort
-//@   ensures[C03] err == nil ==> len(b1) == 88 && be16(b1, 2) == 88 && be16(b1, 16) == 40 && be16(b1, 32) == 0 && be32(b1, 36) == a1.Port && be16(b1, 48) == 22 && be32(b1, 52) == a2.GroupId && be16(b1, 56) == 32 && be16(b1, 58) == bb.Weight && be16(b1, 72) == 21 && be32(b1, 76) == a3.QueueId && be16(b1, 80) == 18 && be16(b1, 82) == 8
+//@   ensures[C03 C06] err == nil ==> len(b1) == 88 && be16(b1, 2) == 88 && be16(b1, 16) == 40 && be16(b1, 32) == 0 && be32(b1, 36) == a1.Port && be16(b1, 48) == 22 && be32(b1, 52) == a2.GroupId && be16(b1, 56) == 32 && be16(b1, 58) == bb.Weight && be16(b1, 72) == 21 && be32(b1, 76) == a3.QueueId && be16(b1, 80) == 18 && be16(b1, 82) == 8
 //@   ensures err == nil ==> len(b2) == len(b1) && bytes_eq(b2, 0, b1, 0, len(b1))
 
 //@ func lemmaContMatch4(port, mac, mask, et, ip, ipmask) (d, err, b1, b2) [C05 C03]
@@ -970,7 +970,7 @@ package openflow13
 //@   requires len(mac) == 6 && len(mask) == 6 && len(ip) == 4 && len(ipmask) == 4
 //@   ensures err == nil && d != nil && d.Type == 1 && d.Length == 46 && len(d.Fields) == 4
 //@   ensures err == nil ==> typeis(d.Fields[2].Value, *EthTypeField) && d.Fields[2].Value.(*EthTypeField).EthType == et && d.Fields[3].HasMask && typeis(d.Fields[3].Value, *Ipv4DstField) && typeis(d.Fields[3].Mask, *Ipv4DstField)
-//@   ensures[C03] err == nil ==> len(b1) == 48 && be16(b1, 0) == 1 && be16(b1, 2) == 46 && be32(b1, 4) == 2147483652 && be32(b1, 8) == port && be32(b1, 12) == 2147485452 && bytes_eq(b1, 16, mac, 0, 6) && bytes_eq(b1, 22, mask, 0, 6) && be32(b1, 28) == 2147486210 && be16(b1, 32) == et && be32(b1, 34) == 2147490056 && bytes_eq(b1, 38, ip, 0, 4) && bytes_eq(b1, 42, ipmask, 0, 4) && be16(b1, 46) == 0
+//@   ensures[C03 C06] err == nil ==> len(b1) == 48 && be16(b1, 0) == 1 && be16(b1, 2) == 46 && be32(b1, 4) == 2147483652 && be32(b1, 8) == port && be32(b1, 12) == 2147485452 && bytes_eq(b1, 16, mac, 0, 6) && bytes_eq(b1, 22, mask, 0, 6) && be32(b1, 28) == 2147486210 && be16(b1, 32) == et && be32(b1, 34) == 2147490056 && bytes_eq(b1, 38, ip, 0, 4) && bytes_eq(b1, 42, ipmask, 0, 4) && be16(b1, 46) == 0
 //@   ensures err == nil ==> len(b2) == len(b1) && bytes_eq(b2, 0, b1, 0, len(b1))
 
 // C03: conntrack builder calls (nicira-ext.h nx_action_conntrack: flags bit 0 = commit, bit 1 = force; zone_src 0 with the
